@@ -3,11 +3,13 @@ import Driver.C01
 import Driver.C02
 import Driver.C12Mon
 import Driver.Flow
+import Driver.C16
 open Kv
 
 structure DState where
   c04 : Drv.Flow.FullSt := {}
   c07 : Drv.Flow.FullSt := {}
+  c16 : Drv.C16.FullSt := {}
   deriving Inhabited
 
 /-- full driver: regenerated model + monitor -/
@@ -18,6 +20,7 @@ def dispatch (st : DState) (prop : String) (l : Line) : DState × String :=
   | "C12" => (st, Drv.C12.step l)
   | "C04" => let (s, r) := Drv.Flow.step "C04" st.c04 l; ({ st with c04 := s }, r)
   | "C07" => let (s, r) := Drv.Flow.step "C07" st.c07 l; ({ st with c07 := s }, r)
+  | "C16" => let (s, r) := Drv.C16.step st.c16 l; ({ st with c16 := s }, r)
   | _ => (st, "bad-op")
 
 def main : IO Unit := driverMain dispatch {}
